@@ -288,7 +288,10 @@ static int gnutls_verify_sha_pem(jwt_t *jwt, const char *head,
 		if (gnutls_privkey_import_x509_raw(privkey, &cert_dat,
 						   GNUTLS_X509_FMT_PEM,
 						   NULL, 0)) {
-			VERIFY_ERROR("Failed importing key"); // LCOV_EXCL_LINE
+			// LCOV_EXCL_START
+			gnutls_privkey_deinit(privkey);
+			VERIFY_ERROR("Failed importing key");
+			// LCOV_EXCL_STOP
 		}
 
 		ret = gnutls_pubkey_import_privkey(pubkey, privkey, 0, 0);
